@@ -264,6 +264,7 @@ def run_v1(app, rec, case):
             snapshot = list(events)
             new = await app.runtime._verif_orig_generate_events(events, processing_log=processing_log)
             app.runtime._verif_last_events = snapshot + list(new)
+            app.runtime._verif_new_events = list(new)
             return new
 
         app.runtime.generate_events = _rec_generate_events
@@ -286,7 +287,9 @@ def run_v1(app, rec, case):
         history.append(res)
         evs = app.runtime._verif_last_events
         ctx = compute_context(evs) if evs else {}
-        turns_out.append({"obs": rec.obs, "reply": reply, "flag": bool(ctx.get("skip_output_rails")),
+        utter = [e.get("script") for e in (getattr(app.runtime, "_verif_new_events", None) or [])
+                 if e.get("type") == "StartUtteranceBotAction"]
+        turns_out.append({"obs": rec.obs, "reply": reply, "flag": bool(ctx.get("skip_output_rails")), "utter": utter,
                           "ctx": {k: ctx.get(k) for k in ("user_message", "bot_message", "triggered_input_rail",
                                                            "triggered_output_rail")}})
     return turns_out
@@ -386,7 +389,9 @@ def run_v2(app, rec, case):
             ctx = {k: st.context.get(k) for k in ("user_message", "bot_message", "last_bot_message")}
         except Exception as e:  # noqa: BLE001
             flag, ctx = None, {"error": repr(e)[:200]}
-        turns_out.append({"obs": rec.obs, "reply": reply, "flag": flag, "ctx": ctx})
+        content = msg.get("content")
+        utter = [] if content in ("", None) else str(content).split("\n")
+        turns_out.append({"obs": rec.obs, "reply": reply, "flag": flag, "ctx": ctx, "utter": utter})
     return turns_out
 
 
@@ -400,6 +405,147 @@ def run_case(case):
                       else build_v2(case["n_in"], case["n_out"], case["exc"]))
     app, rec = _APPS[key]
     return run_v1(app, rec, case) if case["ver"] == "v1" else run_v2(app, rec, case)
+
+
+# ---------------------------------------------------------------------------------------
+# the SHIPPED library rail `self check output` (Colang 1.0 flows.v1.co and Colang 2.x flows.co),
+# driven through every caller-visible channel: `generate` (messages), `generate_events` (the
+# returned events) and, for Colang 2, `generate` with state.  A library case is
+#   {"lib": "self_check_output", "ver": "v1"|"v2", "api": "generate"|"events", "exc": bool,
+#    "blocks": [bool per turn]}      (turn t: the LLM answers "L{t}x0z"; the self-check LLM call
+#                                     answers "Yes" (block) / "No")
+
+LIB_YML = """
+models: []
+rails:
+  output:
+    flows: [self check output]
+enable_rails_exceptions: {exc}
+prompts:
+  - task: self_check_output
+    content: "Should this be blocked? {{{{ bot_response }}}}"
+core:
+  embedding_search_provider:
+    name: verif
+"""
+
+LIB_V2_CO = """
+import core
+import guardrails
+import nemoguardrails.library.self_check.output_check
+
+flow main
+  activate answering
+
+flow answering
+  user said something as $ref
+  $answer = ..."Answer the user: {$ref.transcript}"
+  bot say $answer
+"""
+
+LIB_REFUSAL = "I'm sorry, I can't respond to that."
+
+
+def run_library_case(case):
+    """Needs COLANGPATH=<repo root> in the environment BEFORE nemoguardrails is imported."""
+    logging.disable(logging.CRITICAL)
+    sys.path.insert(0, C.REPO)
+    from nemoguardrails import LLMRails, RailsConfig
+    from tests.utils import FakeLLM
+
+    yml = LIB_YML.format(exc="true" if case["exc"] else "false")
+    if case["ver"] == "v2":
+        config = RailsConfig.from_content(LIB_V2_CO, 'colang_version: "2.x"\n' + yml)
+    else:
+        config = RailsConfig.from_content("", yml)
+    config.config_path = ensure_cfg_dir()
+    responses = []
+    for t, b in enumerate(case["blocks"]):
+        responses += [(f'"L{t}x0z"' if case["ver"] == "v2" else f"L{t}x0z"), "Yes" if b else "No"]
+    app = LLMRails(config, llm=FakeLLM(responses=responses))
+    out = []
+    history, events, state = [], [], {}
+    for t, b in enumerate(case["blocks"]):
+        user = f"U{t}z"
+        try:
+            if case["ver"] == "v2":
+                res = app.generate(messages=[{"role": "user", "content": user}], state=state)
+                state = res.state
+                msg = res.response[0]
+                content = msg.get("content") or ""
+                utter = [] if content == "" else content.split("\n")
+                excs = [e.get("type") for e in msg.get("events", []) if str(e.get("type", "")).endswith("Exception")]
+            elif case["api"] == "generate":
+                history.append({"role": "user", "content": user})
+                res = app.generate(messages=history)
+                history.append(res)
+                if res.get("role") == "exception":
+                    utter, excs = [], [res["content"].get("type")]
+                else:
+                    utter, excs = [res.get("content")], []
+            else:
+                events.append({"type": "UtteranceUserActionFinished", "final_transcript": user})
+                new = app.generate_events(events=list(events))
+                events.extend(new)
+                utter = [e.get("script") for e in new if e.get("type") == "StartUtteranceBotAction"]
+                excs = [e.get("type") for e in new if str(e.get("type", "")).endswith("Exception")]
+        except Exception as e:  # noqa: BLE001
+            out.append({"error": f"{type(e).__name__}: {e}"[:300]})
+            break
+        out.append({"utter": utter, "exceptions": excs})
+    return out
+
+
+def library_oracle(case, observed):
+    """A message the library rail blocked is released on NO channel; the refusal / the rail
+    exception is; an allowed message is returned.  Yields (signature, what, turn)."""
+    out = []
+    chan = f"{case['ver']}-{case.get('api', 'generate')}"
+    for t, (b, ob) in enumerate(zip(case["blocks"], observed)):
+        if "error" in ob:
+            out.append((f"library-self-check-output-{chan}-raised", f"turn {t}: {ob['error']}", t))
+            break
+        m = f"L{t}x0z"
+        if b:
+            if any(m in (u or "") for u in ob["utter"]):
+                sig = ("library-self-check-output-blocked-text-released-with-rail-exceptions" if case["exc"]
+                       else "library-self-check-output-blocked-text-released")
+                out.append((sig, f"{chan}, enable_rails_exceptions={case['exc']}, turn {t}: `self check output` blocked {m} "
+                                 f"but the caller receives utterances {ob['utter']} (exceptions {ob['exceptions']})", t))
+            elif case["exc"] and ob["exceptions"] != ["OutputRailException"]:
+                out.append(("library-self-check-output-no-exception", f"{chan} turn {t}: blocked, exceptions {ob['exceptions']}", t))
+            elif not case["exc"] and ob["utter"] != [LIB_REFUSAL]:
+                out.append(("library-self-check-output-no-refusal", f"{chan} turn {t}: blocked, utterances {ob['utter']}", t))
+        elif ob["utter"] != [m]:
+            out.append(("library-self-check-output-allowed-text-not-returned", f"{chan} turn {t}: allowed {m}, utterances {ob['utter']}", t))
+    return out
+
+
+def library_cases():
+    cases = []
+    for ver, api in (("v1", "generate"), ("v1", "events"), ("v2", "generate")):
+        for exc in (False, True):
+            for blocks in ([True], [False, True, False], [True, True, False], [False, False, True, False]):
+                cases.append({"lib": "self_check_output", "ver": ver, "api": api, "exc": exc, "blocks": blocks})
+    return cases
+
+
+def run_library_probe(cases, tag):
+    """Runs the library cases in ONE child process (COLANGPATH must be set before import)."""
+    d = os.path.join(C.BUILD, "pipe", tag)
+    os.makedirs(d, exist_ok=True)
+    pin, pout = os.path.join(d, "lib_in.json"), os.path.join(d, "lib_out.json")
+    with open(pin, "w") as f:
+        json.dump(cases, f)
+    if os.path.exists(pout):
+        os.remove(pout)
+    env = dict(os.environ)
+    env.update(C.impl_env())
+    env["COLANGPATH"] = C.REPO
+    rc, log = C.sh(["timeout", "600", C.PY, "-m", "harness.pipe_driver", "--library", pin, pout], cwd=C.VERIF, env=env, timeout=700)
+    if rc != 0 or not os.path.exists(pout):
+        return None, f"library probe rc={rc}: {log[-1500:]}"
+    return json.load(open(pout)), None
 
 
 # ---------------------------------------------------------------------------------------
@@ -527,13 +673,14 @@ def coq_obs(o):
 def coq_exp(ver, t):
     if "error" in t:
         # an exception escaped `generate`: never equal to anything the model produces
-        return '(mkExp [] (RMsg ["<generate raised>"]) false None None None None)'
+        return '(mkExp [] (RMsg ["<generate raised>"]) false None None None None [])'
     ctx = t["ctx"]
     ti = coq_opt_rail(ctx.get("triggered_input_rail")) if ver == "v1" else "None"
     to = coq_opt_rail(ctx.get("triggered_output_rail")) if ver == "v1" else "None"
     return ("(mkExp " + C.coq_list([coq_obs(o) for o in t["obs"]]) + " " + coq_reply(t["reply"]) + " "
             + C.coq_bool(bool(t["flag"])) + " " + coq_opt_str(ctx.get("user_message")) + " "
-            + coq_opt_str(ctx.get("bot_message")) + " " + ti + " " + to + ")")
+            + coq_opt_str(ctx.get("bot_message")) + " " + ti + " " + to + " "
+            + C.coq_list([C.coq_string(str(x)) for x in t.get("utter", [])]) + ")")
 
 
 def coq_turns(case):
@@ -700,7 +847,7 @@ def shrink_case(case, still_bad, budget=40):
     return cur
 
 
-def run_check(pid, gen, focus, oracle, tier, seed, replay, checker_cmd, rule, assumptions, notes=()):
+def run_check(pid, gen, focus, oracle, tier, seed, replay, checker_cmd, rule, assumptions, notes=(), library=False):
     import random
 
     out = C.Outcome(pid, tier, seed)
@@ -715,18 +862,24 @@ def run_check(pid, gen, focus, oracle, tier, seed, replay, checker_cmd, rule, as
     if not okm:
         out.add_broken("coq:theories/Pipe/PipeRun.v", logm)
 
-    cases, origin = [], []
+    cases, origin, corpus_lib = [], [], []
     corpus_dir = os.path.join(C.VERIF, "corpus", pid)
     if os.path.isdir(corpus_dir):
         for fn in sorted(os.listdir(corpus_dir)):
             if fn.endswith(".json"):
                 d = json.load(open(os.path.join(corpus_dir, fn)))
+                if "lib" in d["case"]:
+                    corpus_lib.append(d["case"])
+                    continue
                 cases.append(d["case"])
                 origin.append("corpus:" + fn)
+    lib_cases = (corpus_lib if library else []) + (library_cases() if (library and not replay) else [])
     if replay:
         d = json.load(open(replay))
         r = d.get("replay", d)
-        if "case" in r:
+        if "case" in r and "lib" in r["case"]:
+            lib_cases.append(r["case"])
+        elif "case" in r:
             cases.append(r["case"])
             origin.append("replay")
     if not replay:
@@ -800,6 +953,25 @@ def run_check(pid, gen, focus, oracle, tier, seed, replay, checker_cmd, rule, as
             obs_small = results[i]
         out.findings.append(C.Finding(sig, f"{what} ({len(lst)} conversations)",
                                       {"case": small, "observed": obs_small, "signature": sig, "what": what}))
+
+    # ---- the shipped library rail `self check output` on every caller-visible channel
+    lib_viol = 0
+    if lib_cases:
+        lib_obs, lerr = run_library_probe(lib_cases, pid.lower())
+        if lerr:
+            out.add_broken(f"harness:{pid}-library-probe", lerr)
+        else:
+            by = {}
+            for lc, lo in zip(lib_cases, lib_obs):
+                for sig, what, _t in library_oracle(lc, lo):
+                    lib_viol += 1
+                    by.setdefault(sig, []).append((what, lc, lo))
+            for sig, lst in by.items():
+                what, lc, lo = min(lst, key=lambda x: len(x[1]["blocks"]))
+                out.findings.append(C.Finding(sig, f"{what} ({len(lst)} library conversations)",
+                                              {"case": lc, "observed": lo, "signature": sig, "what": what}))
+        out.coverage["library_rail_conversations"] = len(lib_cases)
+        out.coverage["library_rail_violations"] = lib_viol
 
     # ---- evidence
     seen, nontrivial = set(), 0
@@ -878,7 +1050,7 @@ OBSERVATIONS = [
     "O1: the return value of a NON-system rail action is rendered into the colang history of later dialog prompts "
     "('# The result was ...'): with rewriting rails whose action returns the new text, intermediate rewrites and texts of "
     "rejected turns reach generate_user_intent prompts; library rail actions are system actions and are not rendered",
-    "O2: library flow `self check output` (flows.v1.co) with enable_rails_exceptions creates OutputRailException but does "
+    "O2 (now a finding of C02, see fixes/C02-selfcheck-output-stop.patch): library flow `self check output` with enable_rails_exceptions creates OutputRailException but does "
     "not `stop`: later output rails still run and StartUtteranceBotAction(blocked text) is stored in the event history; "
     "the reply is the exception (Props/C02.v C02_T_self_check_output_stops exempts that edge)",
     "O4: a Colang 1.0 turn that produces more than 100 events makes generate raise Exception('Too many events.') "
@@ -892,6 +1064,16 @@ OBSERVATIONS = [
 if __name__ == "__main__":
     if len(sys.argv) >= 4 and sys.argv[1] == "--worker":
         _worker(sys.argv[2], sys.argv[3])
+    elif len(sys.argv) >= 4 and sys.argv[1] == "--library":
+        _cases = json.load(open(sys.argv[2]))
+        _outs = []
+        for _c in _cases:
+            try:
+                _outs.append(run_library_case(_c))
+            except Exception as _e:  # noqa: BLE001
+                _outs.append([{"error": f"driver: {type(_e).__name__}: {_e}"[:300]}])
+        with open(sys.argv[3], "w") as _f:
+            json.dump(_outs, _f)
     else:
         case = json.loads(sys.argv[1])
         obs = run_case(case)
